@@ -14,6 +14,7 @@ import (
 	"github.com/ipld/go-storethehash/store"
 	"github.com/ipld/go-storethehash/store/index"
 	"github.com/ipld/go-storethehash/store/types"
+	"github.com/ipld/go-storethehash/store/vhook"
 )
 
 // Op is one step of a sequential history.
@@ -54,27 +55,28 @@ type SeqCase struct {
 
 // SeqStats describes what a run exercised; used for the non-triviality rules.
 type SeqStats struct {
-	SharedPrefixPair bool // two put keys in one bucket sharing >=1 byte after the bucket prefix
-	Supersede        int  // overwrites with a new value + removals of present keys
-	Rejected         int  // immutable puts rejected
-	ReadAfterFlush   bool
-	Flushes          int
-	Reopens          [3]int
-	ReopenAfterWork  bool // reopen preceded by rollover / removal of flushed key / GC change / empty list
-	GCChanged        int  // GC cycles that changed at least one byte on disk
-	GCInterrupted    int
-	GCWithUnflushed  int
-	IndexFiles       int
-	PrimaryFiles     int
-	EmptyValues      int
-	Steps            int
-	ReadAfterGC      bool
-	GCKinds          map[string]bool
-	GCErrors         []string // error returns of GC cycles (not violations by themselves)
-	Translations     int
-	TranslatedNT     bool // a translation of >=6 keys, >=2 sharing a bucket afterwards, from >=2 index files
-	BitPairs         []string
-	Mismatches       int
+	SharedPrefixPair  bool // two put keys in one bucket sharing >=1 byte after the bucket prefix
+	Supersede         int  // overwrites with a new value + removals of present keys
+	Rejected          int  // immutable puts rejected
+	ReadAfterFlush    bool
+	Flushes           int
+	Reopens           [3]int
+	ReopenAfterWork   bool // reopen preceded by rollover / removal of flushed key / GC change / empty list
+	GCChanged         int  // GC cycles that changed at least one byte on disk
+	GCInterrupted     int
+	GCWithUnflushed   int
+	IndexFiles        int
+	PrimaryFiles      int
+	EmptyValues       int
+	Steps             int
+	ReadAfterGC       bool
+	GCKinds           map[string]bool
+	GCErrors          []string // error returns of GC cycles (not violations by themselves)
+	SupersededFlushed bool     // a key whose entry had been flushed was overwritten or removed
+	Translations      int
+	TranslatedNT      bool // a translation of >=6 keys, >=2 sharing a bucket afterwards, from >=2 index files
+	BitPairs          []string
+	Mismatches        int
 }
 
 // seqOpts selects optional behaviour of the runner.
@@ -91,7 +93,9 @@ type seqOpts struct {
 	TrackGC       bool // hash the directory around GC cycles
 	KeepDir       bool
 	NoFinalIter   bool
-	Points        *pointCounter // counts named points passed during the run
+	Points        *pointCounter     // counts named points passed during the run
+	Hook          func(name string) // handler installed for the named points during the run
+	OnDir         func(dir string)  // called with the scratch directory before the store is opened
 }
 
 type seqRunner struct {
@@ -136,6 +140,13 @@ func runSeq(c SeqCase, o seqOpts) (st SeqStats, v *Violation) {
 	if o.Points != nil {
 		o.Points.install()
 		defer o.Points.uninstall()
+	}
+	if o.OnDir != nil {
+		o.OnDir(r.dir)
+	}
+	if o.Hook != nil {
+		vhook.SetHandler(o.Hook)
+		defer vhook.SetHandler(nil)
 	}
 	defer func() {
 		if r.s != nil {
@@ -344,7 +355,7 @@ func (r *seqRunner) doPut(i int, op Op) *Violation {
 	if present && !bytes.Equal(cur, val) {
 		r.stats.Supersede++
 		if r.everFlushed[d] {
-			r.removedFlushed = true
+			r.removedFlushed, r.stats.SupersededFlushed = true, true
 		}
 	}
 	if !present || !bytes.Equal(cur, val) {
@@ -369,7 +380,7 @@ func (r *seqRunner) doRemove(i int, op Op) *Violation {
 	if present {
 		r.stats.Supersede++
 		if r.everFlushed[d] {
-			r.removedFlushed = true
+			r.removedFlushed, r.stats.SupersededFlushed = true, true
 			r.dirtyForReopen = true
 		}
 		delete(r.model, d)
@@ -854,3 +865,5 @@ func (r *seqRunner) doMismatch(i int, op Op) *Violation {
 	}
 	return r.checkIter(i, opMismatch)
 }
+
+func (st SeqStats) removedFlushedSeen() bool { return st.SupersededFlushed }
